@@ -1,11 +1,11 @@
-// counterexamples for harness c14::c14_unique_idx_last_leading_nulls_opt_n2n4 (property C14); replay: ./check C14 --replay <this file>
-// features: c14
+// counterexamples for harness c05::c05_len_minmax_i32out_n1 (property C05); replay: ./check C05 --replay <this file>
+// features: c05
 #![allow(unused_imports)]
-use crate::c14::*;
+use crate::c05::*;
 
-/// Test generated for harness `c14::c14_unique_idx_last_leading_nulls_opt_n2n4` 
+/// Test generated for harness `c05::c05_len_minmax_i32out_n1` 
 ///
-/// Check for `assertion`: ""an index of a null is never produced""
+/// Check for `assertion`: "Cannot call none() on a non-float type"
 ///
 /// # Warning
 ///
@@ -19,16 +19,16 @@ use crate::c14::*;
 /// logic.
 
 #[test]
-fn kani_concrete_playback_c14_unique_idx_last_leading_nulls_opt_n2n4_3269735175505527030() {
+fn kani_concrete_playback_c05_len_minmax_i32out_n1_10624475863012770084() {
     let concrete_vals: Vec<Vec<u8>> = vec![
         // 1ul
         vec![1, 0, 0, 0, 0, 0, 0, 0],
-        // 1
-        vec![1],
         // 0
         vec![0],
-        // 1
-        vec![1, 0, 0, 0],
+        // 1ul
+        vec![1, 0, 0, 0, 0, 0, 0, 0],
+        // 0
+        vec![0],
     ];
-    kani::concrete_playback_run(concrete_vals, c14_unique_idx_last_leading_nulls_opt_n2n4);
+    kani::concrete_playback_run(concrete_vals, c05_len_minmax_i32out_n1);
 }
